@@ -145,3 +145,34 @@ func FlushKeepsAccumulator(parts []string, emit func(string)) {
 	}
 	flush()
 }
+
+type cursor struct {
+	data []byte
+	pos  int
+}
+
+// WeakBound violates R2.11 WEAK-BOUND: the guard admits pos+2 == len, the second read is one past the end.
+func WeakBound(c *cursor) (byte, byte) {
+	if c.pos+2 <= len(c.data) {
+		return c.data[c.pos+1], c.data[c.pos+2]
+	}
+	return 0, 0
+}
+
+type Lazy struct {
+	items []int
+}
+
+// MemoBeforeSuccess violates R3.5 MEMO-ON-SUCCESS: the memo is set before the step that can fail and stays set.
+func (l *Lazy) MemoBeforeSuccess(load func() ([]int, error)) ([]int, error) {
+	if l.items != nil {
+		return l.items, nil
+	}
+	l.items = make([]int, 0)
+	more, err := load()
+	if err != nil {
+		return nil, err
+	}
+	l.items = append(l.items, more...)
+	return l.items, nil
+}
